@@ -93,6 +93,7 @@ type tableOcc struct {
 	Name  string // as written, without quotes
 	Qual  string
 	Plain bool   // unqualified, needs no quoting, was not quoted
+	Virtual bool // no table: a derived table that reads none (kept for the shape only)
 	Shape string // top-from | union-arm | derived-table | subselect-in-expression | insert-target | insert-select | paren-select | update | delete
 }
 
@@ -100,8 +101,12 @@ var plainNameRE = regexp.MustCompile(`^[A-Za-z_][A-Za-z0-9_]*$`)
 
 func occOf(tn sqlparser.TableName, shape string) (tableOcc, bool) {
 	name := tn.Name.String()
-	if name == "" || (strings.EqualFold(name, "dual") && tn.Qualifier.IsEmpty()) {
+	if name == "" {
 		return tableOcc{}, false
+	}
+	if strings.EqualFold(name, "dual") && tn.Qualifier.IsEmpty() {
+		// the parser gives every SELECT without FROM the table `dual`: not a table, but acra's table rules see it
+		return tableOcc{Shape: "dual", Virtual: true}, true
 	}
 	o := tableOcc{Name: name, Qual: tn.Qualifier.String(), Shape: shape}
 	if o.Qual == "" && plainNameRE.MatchString(name) {
@@ -165,7 +170,12 @@ func fromTables(te sqlparser.TableExpr, out *[]tableOcc) {
 				*out = append(*out, o)
 			}
 		case *sqlparser.Subquery:
+			n := len(*out)
 			allTables(reflect.ValueOf(e), "derived-table", out)
+			if len(*out) == n {
+				// a derived table that reads no table itself: still a FROM item that is not a table name
+				*out = append(*out, tableOcc{Shape: "derived-table", Virtual: true})
+			}
 		}
 	case *sqlparser.JoinTableExpr:
 		fromTables(x.LeftExpr, out)
@@ -338,6 +348,9 @@ func isLiteralVal(e sqlparser.Expr) bool {
 	if !ok {
 		return false
 	}
+	if v.Type == sqlparser.StrVal && (string(v.Val) == valueReplacer || string(v.Val) == listReplacer) {
+		return false // already a placeholder
+	}
 	switch v.Type {
 	case sqlparser.StrVal, sqlparser.IntVal, sqlparser.FloatVal, sqlparser.HexNum, sqlparser.HexVal, sqlparser.BitVal, sqlparser.PgEscapeString:
 		return true
@@ -445,7 +458,10 @@ func candidates(st sqlparser.Statement, op string) []cand {
 				if v.Kind() == reflect.Ptr && v.CanInterface() {
 					if sq, ok := v.Interface().(*sqlparser.Subquery); ok {
 						out = append(out, cand{func(int) {
-							sq.Select = &sqlparser.Select{SelectExprs: sqlparser.SelectExprs{&sqlparser.AliasedExpr{Expr: &sqlparser.ColName{Name: sqlparser.NewColIdent(subqMarker)}}}}
+							sq.Select = &sqlparser.Select{
+								SelectExprs: sqlparser.SelectExprs{&sqlparser.AliasedExpr{Expr: &sqlparser.ColName{Name: sqlparser.NewColIdent(subqMarker)}}},
+								From:        sqlparser.TableExprs{&sqlparser.AliasedTableExpr{Expr: sqlparser.TableName{Name: sqlparser.NewTableIdent("dual")}}},
+							}
 						}})
 						// nested sub-selects remain candidates as well
 					}
